@@ -184,6 +184,9 @@ func (r *runner) runPlan(seed uint64, plan chainPlan, full bool) {
 		if len(r.c.Samples) < 4 {
 			r.c.Sample(map[string]any{"chain": seed, "block": i, "version": ctx.Version, "txs": mk().Kinds, "tamperings": len(names), "hash": f.Hash.String()})
 		}
+		if r.only == nil && full {
+			r.nilSweep(valid, mk, fols, i) // the kind/field tour chain carries every transaction kind
+		}
 		if r.only == nil {
 			r.probes(valid, mk, fols, i)
 			r.uncommittedProbes(valid, mk, fols, uncommitted, i)
